@@ -174,6 +174,67 @@ def handleOps (a b s : Rat) (impl : List String) : Verdict :=
     v.withSpec (!(ratAbs rm < ratAbs b && (rm == 0 || (rm < 0) == (a < 0)) && k == ((k.floor : Int) : Rat))) "ops-rem" "remainder"
   | _ => (v.withDiff true "non-finite or malformed output").withSpec true "ops-nonfinite" "not finite"
 
+/-- Split the implementation's tokens into the groups separated by `|`. -/
+def groups (impl : List String) : List (List String) :=
+  let rec go : Nat → List String → List (List String)
+    | 0, l => [l]
+    | f + 1, l =>
+      let (a, b) := splitBar l
+      if b.isEmpty && !l.contains "|" then [a] else a :: go f b
+  go impl.length impl
+
+/-- `opsu`: operators, the `Affine`/`Linear` trait methods, `lerp`, max/min, and the results read
+back in degrees and turns. -/
+def handleOpsU (a b s : Rat) (impl : List String) : Verdict :=
+  let v := Verdict.ok ["opsu"]
+  match (groups impl).map parseAll with
+  | [some [ad, sb, ng, ml, dv], some [tad, tsb, tng, tml, tz, lp], some [da, db, dsum, ddif, ta, tmul, tdiv], some [mx, mn]] =>
+    let rel := ratPow2 (-22)
+    let sc := ratAbs a + ratAbs b
+    let tolL := sc * (1 + ratAbs s) * ratPow2 (-20) + tiny
+    let okOps := relClose ad (aadd a b) rel && relClose sb (asub a b) rel && ng == aneg a
+      && relClose ml (amul a s) rel && relClose dv (adiv a s) rel
+    let v := v.withDiff (!okOps) s!"operators: impl {fmt [ad, sb, ng, ml, dv]} model {fmt [aadd a b, asub a b, aneg a, amul a s, adiv a s]}"
+    let v := v.withDiff (!(absClose lp (Retro.lerp a b s) tolL)) s!"lerp: impl {ratApprox lp} model {ratApprox (Retro.lerp a b s)}"
+    let relU : Rat := 1 / 100000
+    let tolD := relU * (ratAbs (toDegs piF a) + ratAbs (toDegs piF b)) + tiny
+    let okU := relClose da (toDegs piF a) relU && relClose db (toDegs piF b) relU
+      && absClose dsum (toDegs piF (aadd a b)) tolD && absClose ddif (toDegs piF (asub a b)) tolD
+      && relClose ta (toTurns piF a) relU && relClose tmul (toTurns piF (amul a s)) relU
+      && relClose tdiv (toTurns piF (adiv a s)) relU
+    let v := v.withDiff (!okU) s!"unit read-back: impl {fmt [da, db, dsum, ddif, ta, tmul, tdiv]}"
+    let v := v.withDiff (!(mx == amax a b && mn == amin a b)) s!"max/min: impl {fmt [mx, mn]} model {fmt [amax a b, amin a b]}"
+    -- oracle (implementation output and case only)
+    let v := v.withSpec (!(tad == ad && tsb == sb && tng == ng && tml == ml)) "affine-differs"
+      "Affine::add/sub, Linear::neg/mul of Angle differ from the operators"
+    let v := v.withSpec (tz != 0) "linear-zero" "Linear::zero() is not the zero angle"
+    let v := v.withSpec (!(relClose ad (a + b) rel && relClose sb (a - b) rel && ng == -a && relClose ml (a * s) rel && relClose dv (a / s) rel))
+      "ops-magnitude" "an operator does not act on the underlying magnitude"
+    let v := v.withSpec (!absClose lp (a + (b - a) * s) tolL) "lerp-wrong" "lerp(a, b, t) is not a + (b - a) t"
+    let tolDi := relU * (ratAbs da + ratAbs db) + tiny
+    let v := v.withSpec (!(absClose dsum (da + db) tolDi && absClose ddif (da - db) tolDi)) "ops-unit-additive"
+      s!"degrees: ({ratApprox da}) ± ({ratApprox db}) read back as {ratApprox dsum}, {ratApprox ddif}"
+    let v := v.withSpec (!(relClose tmul (ta * s) relU && relClose tdiv (ta / s) relU)) "ops-unit-scaling"
+      s!"turns: {ratApprox ta} scaled by {ratApprox s} read back as {ratApprox tmul}, {ratApprox tdiv}"
+    let v := v.withSpec (!relClose da (ta * 360) relU) "unit-inconsistent" s!"degs {ratApprox da} vs turns {ratApprox ta}"
+    v.withSpec (!(mn ≤ a && mn ≤ b && a ≤ mx && b ≤ mx && (mn == a || mn == b) && (mx == a || mx == b))) "minmax-wrong"
+      "min/max do not act on the magnitude"
+  | _ => (v.withDiff true "non-finite or malformed output").withSpec true "ops-nonfinite" "not finite"
+
+/-- `front`: the `From`/`Into` impls must be the named conversions, bit for bit. -/
+def handleFront (impl : List String) : Verdict :=
+  let v := Verdict.ok ["front"]
+  let halves (g : List String) : Bool :=
+    let n := g.length / 2
+    g.length % 2 == 0 && n > 0 && g.take n == g.drop n
+  let gs := groups impl
+  let v := v.withDiff (gs.length != 4) "malformed output"
+  let names := ["Vec2::from(PolarVec) vs to_cart", "PolarVec::from(Vec2) vs to_polar",
+                "Vec3::from(SphericalVec) vs to_cart", "SphericalVec::from(Vec3) vs to_spherical"]
+  match (gs.zip names).find? (fun p => !halves p.1) with
+  | some (_, name) => (v.withDiff true s!"model: From is the named conversion; {name}").withSpec true "from-differs" s!"{name} differ"
+  | none => v
+
 /-! ### trig -/
 
 def handleSinCos (a : Rat) (impl : List String) : Verdict :=
@@ -383,6 +444,11 @@ def handle (case impl : List String) : Verdict :=
     match rat? a, rat? b, rat? s with
     | some a, some b, some s => handleOps a b s impl
     | _, _, _ => bad "ops"
+  | ["opsu", a, b, sc] =>
+    match rat? a, rat? b, rat? sc with
+    | some a, some b, some sc => handleOpsU a b sc impl
+    | _, _, _ => bad "opsu"
+  | "front" :: _ => handleFront impl
   | ["sincos", a] =>
     match rat? a with | some a => handleSinCos a impl | none => bad "sincos"
   | ["inv", x, y] =>
